@@ -751,6 +751,51 @@ pub struct IntrCase {
 
 extern "C" fn noop_handler(_: libc::c_int) {}
 
+/// Runs `f` while the calling thread receives SIGUSR2 - handled by a handler installed WITHOUT
+/// SA_RESTART, so that its interrupted system calls return EINTR - every `gap_us` microseconds (at most
+/// 4000 times).  Returns f's result and the number of signals sent.
+pub fn with_signal_storm<R>(gap_us: u64, f: impl FnOnce() -> R) -> (R, u64) {
+    use std::sync::atomic::AtomicBool;
+    unsafe {
+        let mut sa: libc::sigaction = std::mem::zeroed();
+        sa.sa_sigaction = noop_handler as usize;
+        sa.sa_flags = 0;
+        libc::sigemptyset(&mut sa.sa_mask);
+        libc::sigaction(libc::SIGUSR2, &sa, std::ptr::null_mut());
+    }
+    let me = unsafe { libc::getpid() };
+    let my_tid = unsafe { libc::syscall(libc::SYS_gettid) } as i32;
+    let stop = Arc::new(AtomicBool::new(false));
+    let sent = Arc::new(AtomicU64::new(0));
+    let gap = Duration::from_micros(gap_us.max(40));
+    let storm = {
+        let (stop, sent) = (stop.clone(), sent.clone());
+        std::thread::spawn(move || {
+            unsafe {
+                let mut set: libc::sigset_t = std::mem::zeroed();
+                libc::sigemptyset(&mut set);
+                libc::sigaddset(&mut set, libc::SIGUSR2);
+                libc::pthread_sigmask(libc::SIG_BLOCK, &set, std::ptr::null_mut());
+            }
+            while !stop.load(Ordering::SeqCst) && sent.load(Ordering::SeqCst) < 4000 {
+                unsafe { libc::syscall(libc::SYS_tgkill, me, my_tid, libc::SIGUSR2) };
+                sent.fetch_add(1, Ordering::SeqCst);
+                let t0 = Instant::now();
+                while t0.elapsed() < gap {
+                    std::hint::spin_loop();
+                }
+            }
+        })
+    };
+    let r = f();
+    stop.store(true, Ordering::SeqCst);
+    let _ = storm.join();
+    unsafe {
+        libc::signal(libc::SIGUSR2, libc::SIG_IGN);
+    }
+    (r, sent.load(Ordering::SeqCst))
+}
+
 pub fn check_interrupted(c: &IntrCase) -> Verdict {
     use std::sync::atomic::AtomicBool;
     init_scratch();
